@@ -126,20 +126,22 @@ def make_plan(seed: int, tier: str = "quick") -> dict:
         threads.append(ops)
     # strategy
     r = rng.random()
-    if r < 0.35:
+    if r < 0.27:
         strat = ["uniform", rng.choice([0.002, 0.005, 0.01, 0.02, 0.05, 0.1, 0.2, 0.5])]
-    elif r < 0.55:
+    elif r < 0.44:
         strat = ["pct", rng.choice([1, 2, 3, 4]), rng.choice([500, 2000, 8000, 30000])]
-    elif r < 0.72:
+    elif r < 0.57:
         strat = ["targeted", rng.choice([0.02, 0.1, 0.3, 0.7])]
     elif r < 0.97:
         strat = ["lazyinit", rng.choice([0.3, 0.6, 1.0]), rng.choice([0.03, 0.1, 0.3, 1.0])]
         from dst.c20 import reach
 
-        if reach.REACH and rng.random() < 0.7:
-            # site-directed: every lazy-initialisation site of the tree gets its share of runs
-            keys = sorted(reach.REACH)
-            site = keys[rng.randrange(len(keys))]
+        if reach.REACH and rng.random() < 0.8:
+            # site-directed: every cluster of lazy-initialisation / shared-write sites of the tree
+            # (lines of one file at most six lines apart) gets the same share of runs
+            clusters = reach.clusters()
+            cl = clusters[rng.randrange(len(clusters))]
+            site = cl[rng.randrange(len(cl))]
             cands = reach.REACH[site]
             first = cands[rng.randrange(len(cands))]
             same = [c for c in cands if c[1] == first[1]]
